@@ -294,8 +294,8 @@ let diff_lines (model : string list) (impl : string list) : (string * string * s
 
 
 (* ---------- queries ---------- *)
-let status_opt s = if s = "-" then None else Some (status_of_int (int_of_string s))
-let atype_opt s = if s = "-" then None else Some (atype_of_int (int_of_string s))
+let status_opt s = if s = "-" then None else (try Some (status_of_int (int_of_string s)) with _ -> None)
+let atype_opt s = if s = "-" then None else (try Some (atype_of_int (int_of_string s)) with _ -> None)
 let lines_of_qres (r : M.qres) : string list option =
   let strip l = String.sub l 3 (String.length l - 3) in
   match r with
@@ -329,7 +329,12 @@ let check_query (pre : M.state) (op_line : string) (iclass : string) (qr : strin
         | "params" -> "Params", M.QParams, None
         | x -> failwith ("query " ^ x) in
       let impl = List.map (fun l -> norm_ws (String.sub l 3 (String.length l - 3))) qr in
-      let model = lines_of_qres (M.run_query pre q) in
+      (* ListAuction refuses a filter that is not the name of one of the five statuses / two types
+         (the unspecified value 0 included); the model's query takes typed filters, so that is decided here *)
+      let bad_filter = f "q" = "lista" &&
+        ((f "st" <> "-" && (let n = int_of_string (f "st") in n < 1 || n > 5)) ||
+         (f "ty" <> "-" && (let n = int_of_string (f "ty") in n < 1 || n > 2))) in
+      let model = if bad_filter then None else lines_of_qres (M.run_query pre q) in
       let show = function None -> "notfound" | Some l -> String.concat " | " l in
       (* allow-list entries are stored by address bytes: compare as sets *)
       let canon l = if name = "ListAllowedBidder" then List.sort compare l else l in
